@@ -796,7 +796,7 @@ class MTSModelPennyShapedFlaw(CrackShapeDependent):
                             ((np.cos(self.A)) ** 4)
                             + (
                                 ((np.sin(2 * self.A)) ** 2)
-                                / (2 - (nu[..., None, None] ** 2))
+                                / ((2 - nu[..., None, None]) ** 2)
                             )
                         )
                     )
